@@ -255,7 +255,9 @@ void gen(rng &r, const std::string &tier)
         if (ci < 2)
         {
             std::vector<size_t> lens = {5, 6, 7, 8, 9, 15, 16, 17, 31, 32, 33, 63, 64, 65, 100, 127, 128, 255, 256, 257, 600, 1000};
-            if (th) for (size_t n : {1023, 1024, 4095, 4096, 4097, 20000, 65535, 65536}) lens.push_back(n);
+            // (the store-level model the driver runs for `vecbuf` is quadratic in the length - List.set per byte -, so the
+            // worst-case payloads stop at 4097; longer self-sized frames are the `long` ops)
+            if (th) for (size_t n : {1023, 1024, 2047, 2048, 4095, 4096, 4097}) lens.push_back(n);
             for (int rep = 0; rep < (th ? 4 : 1); rep++)
                 for (size_t n : lens)
                 {
